@@ -182,7 +182,39 @@ func localLatchClosedByGoroutine(fn *ssa.Function, v ssa.Value) bool {
 			}
 		}
 	}
-	return false
+	// handed to a function or method started with go, which closes that parameter
+	res := false
+	eachInstr(fn, func(_ *ssa.BasicBlock, _ int, in ssa.Instruction) {
+		g, ok := in.(*ssa.Go)
+		if !ok {
+			return
+		}
+		f := calleeFn(&g.Call)
+		if f == nil || f.Blocks == nil {
+			return
+		}
+		for i, a := range g.Call.Args {
+			for {
+				ct, isCT := a.(*ssa.ChangeType)
+				if !isCT {
+					break
+				}
+				a = ct.X
+			}
+			if a != ssa.Value(mk) || i >= len(f.Params) {
+				continue
+			}
+			prm := f.Params[i]
+			eachInstr(f, func(_ *ssa.BasicBlock, _ int, fi ssa.Instruction) {
+				if isBuiltin(fi, "close") {
+					if cc := callOf(fi); cc != nil && len(cc.Args) == 1 && cc.Args[0] == ssa.Value(prm) {
+						res = true
+					}
+				}
+			})
+		}
+	})
+	return res
 }
 
 func closedInAnon(fn *ssa.Function, cell *ssa.Alloc) bool {
